@@ -174,6 +174,16 @@ func c20Retire(t *testing.T, dir string, c c20RetCase) (string, string) {
 		res = fmt.Sprintf("done=%s aborted=%s oldcancel=%s final=p=%s a=%s s=%d f=%s", at, c20B(plane.VerifC20Aborted()),
 			c20B(oldCancelled), c20B(m.reloadPending.Load()), c20B(m.reloadActive.Load()),
 			outbounddialer.VerifC20Suppression(), c20ProgClass(progPath))
+		if at != "never" {
+			// the mute window: still muted right after the release and until reloadFailureQuiesce has
+			// passed, not a nanosecond longer (real proxyFailureSuppressedForReload, virtual time)
+			m0 := outbounddialer.VerifC20SuppressedNow()
+			time.Sleep(outbounddialer.VerifC20Quiesce() - 1)
+			m1 := outbounddialer.VerifC20SuppressedNow()
+			time.Sleep(1)
+			m2 := outbounddialer.VerifC20SuppressedNow()
+			res += fmt.Sprintf(" mute=%s,%s,%s", c20B(m0), c20B(m1), c20B(m2))
+		}
 		_ = code
 		// let every goroutine of this bubble finish
 		m.lastRetirementMu.Lock()
@@ -210,6 +220,9 @@ func c20RetireStream(t *testing.T, st *VStats, r *VRand) int {
 		st.Inc("ret_op:" + strings.SplitN(op, " ", 2)[0])
 	}
 	emit("const total", fmt.Sprintf("total=%d", int64(total)))
+	emit("const quiesce", fmt.Sprintf("quiesce=%d", int64(outbounddialer.VerifC20Quiesce())))
+	emit("const readywait", fmt.Sprintf("positive=%s", c20B(reloadReadyTimeout > 0)))
+	emit("const preparewait", fmt.Sprintf("positive=%s", c20B(reloadPrepareTimeout > 0)))
 
 	// (a) remainingReloadRetirementBudget
 	ages := []time.Duration{-3 * time.Second, 0, 1, 2 * time.Second, total - time.Second, total - 1, total, total + 1, total + 5*time.Second}
